@@ -253,8 +253,40 @@ class Gen:
     def workspace(self):
         """multi-file workspace: returns (files, root).  Shapes: single, chain, star, diamond (with redefinition
         of a class between the two visits of the shared file), missing include, include inside a block."""
-        shape = self.r.randrange(8)
+        shape = self.r.randrange(13)
         d = "/w/"
+        if shape == 8:
+            # a defset whose body includes another (longer) file: the included defs are members of the defset
+            c = self.pick(CLASSES)
+            pad = "// " + "padding " * self.r.randrange(4, 14) + "\n"
+            return [[d + "main.td", "class %s;\ndefset list<%s> %s = { include \"a.td\" }\n" % (c, c, self.pick(DEFS + VARS)) + self.program(1)],
+                    [d + "a.td", pad + "def %s : %s;\n" % (self.pick(DEFS), c) + self.program(2) + "\ndef %s : %s { int %s = 1; }\n" % (self.pick(DEFS), c, self.pick(FIELDS))]], d + "main.td"
+        if shape == 9:
+            # twin includes: the same text twice, so the same symbol is referenced at identical byte ranges in two files
+            c = self.pick(CLASSES)
+            f = self.pick(FIELDS)
+            twin = self.pick(["def %s : %s;\n" % (self.pick(DEFS), c), "class %s : %s { let %s = 1; }\n" % (self.pick(CLASSES), c, f),
+                              "def : %s { int %s = %s; }\n" % (c, self.pick(FIELDS), f)]) + self.program(2)
+            return [[d + "main.td", "class %s { int %s; }\ninclude \"a.td\"\ninclude \"b.td\"\n" % (c, f) + self.program(2)],
+                    [d + "a.td", twin], [d + "b.td", twin]], d + "main.td"
+        if shape == 10:
+            # the same file included twice (in a row / around declarations / from an included file), declarations afterwards
+            inc = 'include "a.td"\n'
+            mid = self.pick(["", self.program(1) + "\n"])
+            return [[d + "main.td", self.program(1) + "\n" + inc + mid + inc + self.program(3)],
+                    [d + "a.td", self.program(3) + "\n" + self.stress()]], d + "main.td"
+        if shape == 11:
+            # short root, long include: ranges of the include do not fit into the root
+            c = self.pick(CLASSES)
+            f = self.pick(FIELDS)
+            return [[d + "main.td", 'include "a.td"\ndef %s : %s;' % (self.pick(DEFS), c)],
+                    [d + "a.td", self.program(4) + "\nclass %s { int %s = %s; }\n" % (c, f, self.ident()) + self.program(3)
+                     + "\ndef %s : %s { let %s = %s; int q = undefined_name; }\n" % (self.pick(DEFS), c, f, self.ident())]], d + "main.td"
+        if shape == 12:
+            # grandchild included from two places at different depths, with declarations after each include
+            return [[d + "main.td", 'include "a.td"\n' + self.program(1) + '\ninclude "c.td"\n' + self.program(2)],
+                    [d + "a.td", self.program(1) + '\ninclude "c.td"\n' + self.program(2)],
+                    [d + "c.td", self.program(2)]], d + "main.td"
         if shape < 2:
             return [[d + "main.td", self.program()]], d + "main.td"
         if shape == 2:
